@@ -6,7 +6,7 @@ use mrverif::runner::CheckError;
 
 fuzz_target!(|data: &[u8]| {
     let mut b = Bytes::new(data);
-    let raw = gen::decode::raw_config(&mut b, 12, 4, 0);
+    let raw = gen::decode::raw_config(&mut b, 12, 4, 2);
     let case = c10::Case { config: gen::build_config(&raw, CycleMode::Any) };
     if let Err(CheckError::Violation(v)) = c10::check(&case, 0) {
         mrverif::fuzzsupport::report("C10", "inproc", &case, &v);
